@@ -78,8 +78,13 @@ def to_utf16_units(s: str) -> str:
     )
 
 
-class MatchTimeout(Exception):
-    """A backtracking match ran over its time limit (never a verdict)."""
+class MatchTimeout(BaseException):
+    """
+    A backtracking match ran over its time limit (never a verdict).
+
+    Not an ``Exception``: the repository catches ``Exception`` around third-party calls
+    (*e.g.*, ``greenery.parse``) and would turn the alarm into an error report of its own.
+    """
 
 
 @contextlib.contextmanager
